@@ -37,8 +37,19 @@ def model(ctx, part):
 
 def harness(ctx, test, vecs, env):
     inp = os.path.join(ctx.work, test + ".json")
-    vf.write_json(inp, {"cases": vecs})
     e = dict(env)
+    if os.environ.get("VERIF_SELFTEST_CORRUPT"):
+        # binding self-test: a wrong expectation must make the check fail
+        import copy
+        vecs = copy.deepcopy(vecs)
+        if test == "TestZZVExpand":
+            k = next(i for i, v in enumerate(vecs) if any(t["k"] == "ref" for t in v["toks"]) and v["env"]["A"]["set"])
+            vecs[k]["oracle"] = [["~"]]
+            ctx.log("SELFTEST: corrupted the oracle of expansion case %d" % k)
+        else:
+            e["ZZV_CORRUPT"] = 1      # the harness treats agent.display_name as one more secret
+            ctx.log("SELFTEST: agent.display_name declared secret")
+    vf.write_json(inp, {"cases": vecs})
     e["ZZV_IN"] = inp
     r = ctx.gotest("config", HFILES, "^%s$" % test, env=e, timeout=3000, allow_fail=True)
     summ = r.of("summary")
